@@ -583,6 +583,60 @@ func c17FieldNil(fs []Fact, prm *ssa.Parameter, field string) tri {
 	return unknownTri
 }
 
+// c17FieldOfWhole: the values field `name` of the struct value v can hold, v being the load of a local
+// variable that is filled field by field or by a literal (every definition that can be in effect at
+// the load; ok=false when one of them is the zero value or unknown).
+func (p *Program) c17FieldOfWhole(v ssa.Value, name string) (vals []ssa.Value, ok bool) {
+	ld, isLoad := stripConv(v).(*ssa.UnOp)
+	if !isLoad || ld.Op != token.MUL {
+		return nil, false
+	}
+	a, isAlloc := ld.X.(*ssa.Alloc)
+	if !isAlloc {
+		return nil, false
+	}
+	st, isStruct := a.Type().Underlying().(*types.Pointer).Elem().Underlying().(*types.Struct)
+	if !isStruct {
+		return nil, false
+	}
+	field := -1
+	for i := 0; i < st.NumFields(); i++ {
+		if st.Field(i).Name() == name {
+			field = i
+		}
+	}
+	if field < 0 {
+		return nil, false
+	}
+	defs, known := p.fieldDefsAt(a, field, ld, nil)
+	if !known || len(defs) == 0 {
+		return nil, false
+	}
+	for _, d := range defs {
+		switch {
+		case d.Val != nil:
+			vals = append(vals, d.Val)
+		case d.Whole != nil:
+			sub, ok := p.c17FieldOfWhole(d.Whole, name)
+			if !ok {
+				return nil, false
+			}
+			vals = append(vals, sub...)
+		default:
+			return nil, false // may still hold the zero value
+		}
+	}
+	return vals, true
+}
+
+// c17MsLen: the length of a make([]T, len, cap); nil for a nil MakeSlice.
+func c17MsLen(ms *ssa.MakeSlice) ssa.Value {
+	if ms == nil {
+		return nil
+	}
+	return ms.Len
+}
+
 func c17r3(c *Ctx) {
 	p := c.P
 	// wrapper types (generation guards) and selector types, from the Probe implementations
@@ -924,21 +978,84 @@ func c17r3(c *Ctx) {
 				}
 			}
 		}
-		if store == nil {
+		// the same list built by appending: it starts empty, every iteration appends exactly the one
+		// prober of its entry, so entry i sits at index i and the list has len(entries) elements once
+		// the loop over all entries has run to its end
+		var site ssa.Instruction
+		var listVal ssa.Value
+		if store != nil {
+			site, listVal = store, list
+			if lc, _ := asCall(list.Len); lc == nil || !isCallTo(lc.Common(), "builtin:len") || lc.Call.Args[0] != ssa.Value(pp) {
+				pr = append(pr, "the list has length "+p.describe(list.Len)+", not len(entries)")
+			}
+		} else if ps0 != nil {
+			for _, cl := range callsIn(f) {
+				ap, ok := cl.Instr.(*ssa.Call)
+				if !ok || !isCallTo(cl.Common, "builtin:append") || len(ap.Call.Args) != 2 {
+					continue
+				}
+				elems, ok := sliceElems(ap.Call.Args[1])
+				if !ok || len(elems) != 1 {
+					continue
+				}
+				vals := p.c17PhiUnderFacts(elems[0], p.FactsAt(ap.Block()), 0)
+				hit := false
+				for _, v := range vals {
+					if p.sameValue(v, ps0) {
+						hit = true
+					}
+				}
+				if !hit {
+					continue
+				}
+				al := innermostLoop(f, ap.Block())
+				ph, isPhi := ap.Call.Args[0].(*ssa.Phi)
+				if al == nil || !isPhi || ph.Block() != al.Head {
+					pr = append(pr, "the selector parser's result is appended at "+p.IPos(ap)+" to "+c17Short(p.describe(ap.Call.Args[0]))+", which is not the list carried around the loop over the entries")
+					site, listVal = ap, ap
+					continue
+				}
+				for _, v := range vals {
+					if !p.sameValue(v, ps0) {
+						pr = append(pr, fmt.Sprintf("the value appended at %s may also be %s, not the result of the selector parser", p.IPos(ap), p.describe(v)))
+					}
+				}
+				for i, e := range ph.Edges {
+					switch {
+					case al.Body[ph.Block().Preds[i]]:
+						if stripConv(e) != ssa.Value(ap) {
+							pr = append(pr, "the list carried into the next iteration may be "+c17Short(p.describe(e))+", not the list extended by this entry's prober")
+						}
+					case c17IsNilResult(e):
+					default:
+						ms, isMS := stripConv(e).(*ssa.MakeSlice)
+						if n, isConst := constInt(c17MsLen(ms)); !isMS || !isConst || n != 0 {
+							pr = append(pr, "the list the probers are appended to starts as "+c17Short(p.describe(e))+", which is not an empty list")
+						}
+					}
+				}
+				site, listVal = ap, ph
+				if iff, isIf := al.Head.Instrs[len(al.Head.Instrs)-1].(*ssa.If); isIf {
+					if cond, isBin := iff.Cond.(*ssa.BinOp); isBin {
+						sidx = cond.X
+					}
+				}
+			}
+		}
+		if site == nil {
 			o.Fail("the result of the selector parser is not stored into a freshly made list")
 			continue
 		}
-		if lc, _ := asCall(list.Len); lc == nil || !isCallTo(lc.Common(), "builtin:len") || lc.Call.Args[0] != ssa.Value(pp) {
-			pr = append(pr, "the list has length "+p.describe(list.Len)+", not len(entries)")
-		}
-		l := innermostLoop(f, store.Block())
+		l := innermostLoop(f, site.Block())
 		if l == nil {
 			pr = append(pr, "entries are not processed in a loop")
+		} else if sidx == nil {
+			pr = append(pr, "loop header does not end in a bounds test")
 		} else {
 			if ok, why := p.c17LoopOverSlice(l, pp, sidx); !ok {
 				pr = append(pr, why)
 			}
-			if !p.mustPrecedeInLoop(l, store) {
+			if !p.mustPrecedeInLoop(l, site) {
 				pr = append(pr, "an iteration can continue without storing its prober")
 			}
 			rcs := p.c17ReturnCases(f)
@@ -964,7 +1081,7 @@ func c17r3(c *Ctx) {
 				if !c17ErrResultIsNil(rc) {
 					continue
 				}
-				if stripConv(rc.Results[0]) != ssa.Value(list) {
+				if stripConv(rc.Results[0]) != listVal {
 					pr = append(pr, fmt.Sprintf("error-free return at %s yields %s, not the list of all entries", p.IPos(rc.Ret), p.describe(rc.Results[0])))
 				}
 			}
@@ -993,7 +1110,7 @@ func c17r3(c *Ctx) {
 				}
 			}
 		}
-		fs := p.FactsAt(store.Block())
+		fs := p.FactsAt(site.Block())
 		if !p.errOfCallIsNil(fs, ppCall) || !p.errOfCallIsNil(fs, psCall) {
 			pr = append(pr, "the store is not dominated by the error-free edges of both parsers")
 		}
@@ -1039,10 +1156,19 @@ func c17r3(c *Ctx) {
 					pr = append(pr, "the kind selector can be returned without the label selector although selector.Selector may be set")
 				}
 				for _, fn := range []string{"Group", "Kind"} {
-					v, ok := nested["GroupKind."+fn]
-					root, path := c17FieldPath(v)
-					if !ok || !c17IsParamOrSpill(root, sel) || strings.Join(path, ".") != "Kind."+fn {
-						pr = append(pr, "kind selector's GroupKind."+fn+" is "+p.describe(v)+", not selector.Kind."+fn)
+					vs, ok := []ssa.Value{nested["GroupKind."+fn]}, nested["GroupKind."+fn] != nil
+					if !ok {
+						// the pair assigned as one value that was itself filled field by field
+						vs, ok = p.c17FieldOfWhole(fields["GroupKind"], fn)
+					}
+					if !ok {
+						pr = append(pr, "kind selector's GroupKind."+fn+" is "+p.describe(nil)+", not selector.Kind."+fn)
+					}
+					for _, v := range vs {
+						root, path := c17FieldPath(v)
+						if !ok || !c17IsParamOrSpill(root, sel) || strings.Join(path, ".") != "Kind."+fn {
+							pr = append(pr, "kind selector's GroupKind."+fn+" is "+p.describe(v)+", not selector.Kind."+fn)
+						}
 					}
 				}
 				if fields["Prober"] == nil {
